@@ -258,7 +258,7 @@ class LinearSystem:
         y = np.linalg.solve(np.eye(self.dim) - self.B, rhs)
         return {o: y[self.offset[o]: self.offset[o] + self.size[o]] for o in self.out_names}
 
-    def disciplines(self, dup_names: bool = False, coupling_defaults: bool = True):
+    def disciplines(self, dup_names: bool = False, coupling_defaults: bool = True, no_default=()):
         from gemseo.core.discipline import Discipline
 
         system = self
@@ -273,7 +273,7 @@ class LinearSystem:
                 self.io.input_grammar.update_from_names(real.ins[node])
                 self.io.output_grammar.update_from_names(real.outs[node])
                 for u in real.ins[node]:
-                    if coupling_defaults or u not in system.offset:
+                    if (coupling_defaults or u not in system.offset) and (node, u) not in no_default:
                         self.io.input_grammar.defaults[u] = np.zeros(system.size[u])
                         if (node, u) in real.optional:
                             self.io.input_grammar.required_names.remove(u)
